@@ -1,0 +1,8 @@
+//go:build !verif
+// +build !verif
+
+package gocql
+
+// verifPoint marks a named schedule-perturbation point. It does nothing unless the
+// package is built with the "verif" tag (see verif_on.go).
+func verifPoint(name string) {}
